@@ -6,6 +6,9 @@ Protocol (model name `cal`; days are datetime.toordinal() numbers, plain integer
                                                    as datetimes with a time of day (odd positions): a holiday is a DAY
   (cal newt ...)                                   the same, the range endpoints handed over with a time of day (t0 at 09:00, t1 at 17:30;
                                                    `calendar('X', hols, t0 = datetime.now())`): a range endpoint is a DAY (defect C05-D3)
+  (cal newo t0 t1 we (L holiday*) adj)            the same, t0, t1 and the holidays are INSTANTS (ordinal * 86400e6 + microseconds of the day): the caller's
+                                                   objects carry any time of day (a `datetime.date` when it is 0 and the position is even); the model's
+                                                   constructor `mkCalT` floors them (theorem `mkCal_floors`), as `Calendar.__init__` does with `ymd`
   (cal reg <key> hol|N weekend|N t0|N t1|N)        calendar(key, ...) through the module registry; reply describes the calendar
   (cal isb t) (cal ishol t) (cal adjust a t) (cal add a t n) (cal bump a t n) (cal bdays a x y) (cal drange x y b)
   (cal clock t)                                    Calendar.clock(t): the table index of adjust(t) (observe_at lists `clock`)
@@ -231,13 +234,39 @@ def interesting_days(rng, cal, count):
     return sorted(list(must) + days[:max(0, count - len(must))])
 
 
-KINDS = {3: 'longrun', 7: 'outside', 17: 'outside', 11: 'dates', 13: 'tod'}    # calendar index mod 20 -> class (else 'std')
+KINDS = {3: 'longrun', 7: 'outside', 17: 'outside', 11: 'dates', 13: 'tod', 9: 'objects', 19: 'objects'}    # calendar index mod 20 -> class (else 'std')
 
 
 def new_line(cal, scalar_weekend=False, dates=False, tod=False):
     t0, t1, weekend, hol, adj = cal
     we = '%d' % weekend[0] if scalar_weekend and len(weekend) == 1 else ilist(weekend)
     return '(cal %s %d %d %s %s %s)' % ('newd' if dates else 'newt' if tod else 'new', t0, t1, we, ilist(hol), adj)
+
+
+DAYUS = 86400 * 10 ** 6
+TODS = [0, 1, 9 * 3600 * 10 ** 6, 34200 * 10 ** 6, DAYUS - 1]
+
+
+def newo_line(rng, cal):
+    """a `newo` line: every holiday and both range endpoints with a time of day of their own (now and then the same day twice)"""
+    t0, t1, weekend, hol, adj = cal
+    tod = lambda: rng.choice(TODS) if rng.random() < 0.7 else rng.randrange(DAYUS)
+    hs = [h * DAYUS + tod() for h in hol]
+    if hol and rng.random() < 0.5:
+        hs.insert(rng.randrange(len(hs) + 1), rng.choice(hol) * DAYUS + tod())
+    return '(cal newo %d %d %s %s %s)' % (t0 * DAYUS + tod(), t1 * DAYUS + tod(), ilist(weekend), ilist(hs), adj)
+
+
+def instant(us, date_if_midnight=False):
+    """the caller's object for an instant: a datetime with that time of day (a datetime.date when asked and it is midnight)"""
+    d, r = divmod(us, DAYUS)
+    return fo(d).date() if date_if_midnight and r == 0 else fo(d) + datetime.timedelta(microseconds=r)
+
+
+def newo_objects(args):
+    t0, t1 = instant(int(args[0])), instant(int(args[1]))
+    hol = [instant(int(x), i % 2 == 0) for i, x in enumerate(args[3][1:])]
+    return t0, t1, hol
 
 
 def tod_range(t0, t1):
@@ -262,7 +291,7 @@ def generate(rng, tier):
     yield dict(tag='civil', lines=lines)
     for ci in range(ncal):
         kind = KINDS.get(ci % 20, 'std')
-        cal = rand_calendar(rng, tier, 'std' if kind in ('dates', 'tod') else kind)
+        cal = rand_calendar(rng, tier, 'std' if kind in ('dates', 'tod', 'objects') else kind)
         t0, t1, weekend, hol, adj = cal
         nv = Naive(*cal)
         dens = len(hol) / float(t1 - t0 + 1)
@@ -271,6 +300,8 @@ def generate(rng, tier):
         if kind != 'std':
             tag = 'cal %s we=%s adj=%s' % (kind, ''.join(map(str, weekend)) or '-', adj)
         lines = [new_line(cal, scalar_weekend=(ci % 2 == 0), dates=(kind == 'dates'), tod=(kind == 'tod'))]
+        if kind == 'objects':
+            lines = [newo_line(rng, cal)]
         for t in interesting_days(rng, cal, ndays):
             lines.append('(cal isb %d)' % t)
             lines.append('(cal ishol %d)' % t)
@@ -400,6 +431,10 @@ def run_line(state, sx):
     if op == 'ymd':
         t = fo(int(args[0]))
         return 'ok (T I:%d I:%d I:%d I:%d)' % (t.year, t.month, t.day, t.weekday())
+    if op == 'newo':
+        T0, T1, hol = newo_objects(args)
+        state['cal'] = Calendar(None, holidays=hol, weekend=[int(x) for x in args[2][1:]], t0=T0, t1=T1, adj=args[4])
+        return 'ok N'
     if op in ('new', 'newd', 'newt'):
         t0, t1 = int(args[0]), int(args[1])
         weekend = [int(x) for x in args[2][1:]] if isinstance(args[2], list) else int(args[2])   # a scalar: weekend = 6
@@ -496,8 +531,13 @@ def _laws(rng, tier, ctx):
         dates = li % 10 == 8     # holidays as datetime.date / with a time of day
         tod = li % 10 == 6       # range endpoints with a time of day
         T0, T1 = tod_range(t0, t1) if tod else (fo(t0), fo(t1))
-        c = Calendar(None, holidays=as_dates(hol) if dates else [fo(h) for h in hol], weekend=list(weekend), t0=T0, t1=T1, adj=adj)
-        nl = new_line(cal, dates=dates, tod=tod)
+        if li % 10 == 4:         # everything as objects with times of day of their own (`newo`)
+            nl = newo_line(rng, cal)
+            T0, T1, H = newo_objects(proto.parse(nl)[2:])
+            c = Calendar(None, holidays=H, weekend=list(weekend), t0=T0, t1=T1, adj=adj)
+        else:
+            c = Calendar(None, holidays=as_dates(hol) if dates else [fo(h) for h in hol], weekend=list(weekend), t0=T0, t1=T1, adj=adj)
+            nl = new_line(cal, dates=dates, tod=tod)
 
         def bad(tag, lines, msg):
             return Finding('violation', dict(tag='law-' + tag, lines=[nl] + lines), msg)
